@@ -74,6 +74,10 @@ type TestSpec struct {
 	// AsValue ("func" tests): built as a reusable z.TestFunc value without options; the schema gets a COPY of that
 	// value specialised by field assignment (IssueCode, IssuePath, Params, IssueFmtFunc) through schema.Test(t)
 	AsValue bool `json:"asValue,omitempty"`
+	// Complex ("func" tests): written as a z.Test{Func: ...} that reports through ctx.AddIssue (documentation: "Complex
+	// Custom Tests") instead of returning a bool. "ctx": ctx.Issue() (prefilled with the node's path, type and value);
+	// "hand": a hand-built issue without Path; "handpath": a hand-built issue with an explicit Path (Opts.Path)
+	Complex string `json:"complex,omitempty"`
 }
 
 // PostSpec describes one PostTransform recorder.
@@ -213,10 +217,11 @@ type testWire struct {
 	Args []Val  `json:"args,omitempty"`
 	Opts Opts   `json:"opts,omitempty"`
 	AsV  bool   `json:"asValue,omitempty"`
+	Cx   string `json:"complex,omitempty"`
 }
 
 func (t TestSpec) MarshalJSON() ([]byte, error) {
-	w := testWire{Name: t.Name, Not: t.Not, N: t.N, Str: t.Str, Arg: t.Arg, Args: t.Args, Opts: t.Opts, AsV: t.AsValue}
+	w := testWire{Name: t.Name, Not: t.Not, N: t.N, Str: t.Str, Arg: t.Arg, Args: t.Args, Opts: t.Opts, AsV: t.AsValue, Cx: t.Complex}
 	if !utf8.ValidString(t.Str) {
 		w.Str, w.XStr = "", hex.EncodeToString([]byte(t.Str))
 	}
@@ -228,7 +233,7 @@ func (t *TestSpec) UnmarshalJSON(b []byte) error {
 	if err := json.Unmarshal(b, &w); err != nil {
 		return err
 	}
-	*t = TestSpec{Name: w.Name, Not: w.Not, N: w.N, Str: w.Str, Arg: w.Arg, Args: w.Args, Opts: w.Opts, AsValue: w.AsV}
+	*t = TestSpec{Name: w.Name, Not: w.Not, N: w.N, Str: w.Str, Arg: w.Arg, Args: w.Args, Opts: w.Opts, AsValue: w.AsV, Complex: w.Cx}
 	if w.XStr != "" {
 		raw, err := hex.DecodeString(w.XStr)
 		if err != nil {
